@@ -974,12 +974,35 @@ func plainOperand(o []interface{}) {
 func (x *Exec) forEachStop(res E, db *clover.DB, q *query.Query, j int) ([]interface{}, error) {
 	visits := make([]interface{}, 0)
 	n := 0
+	var kept []*document.Document
 	err := db.ForEach(q, func(d *document.Document) bool {
 		n++
-		visits = append(visits, x.alphaRead(res, d))
+		// every other visit the consumer keeps the document as it is (it owns it once it has been handed over), the
+		// other visits it overwrites it on the spot
+		if n%2 == 1 {
+			visits = append(visits, x.alphaDoc(d))
+			kept = append(kept, d)
+		} else {
+			visits = append(visits, x.alphaRead(res, d))
+			kept = append(kept, nil)
+		}
 		return !(j > 0 && n >= j)
 	})
+	x.keptIntact(res, kept, visits)
 	return visits, err
+}
+
+// keptIntact: the documents a consumer kept read, after the call, as they read when they were handed over.
+func (x *Exec) keptIntact(res E, kept []*document.Document, visits []interface{}) {
+	for i, d := range kept {
+		if d == nil {
+			continue
+		}
+		if fmt.Sprint(x.alphaDoc(d)) != fmt.Sprint(visits[i]) && res["harm"] == nil {
+			res["harm"] = "a document handed to a consumer reads differently after the call"
+		}
+		x.alphaRead(res, d) // the views, then the scribble
+	}
 }
 
 // Run executes event e on backend b.  genIds carries the ids generated on the first backend so that
@@ -1138,14 +1161,22 @@ func (x *Exec) Run(b *Backend, e E, genIds [][]byte) E {
 			fp := queryFingerprint(q)
 			visits := make([]interface{}, 0)
 			j, n := toInt(e["j"]), 0
+			var kept []*document.Document
 			err := db.IterateDocs(q, func(d *document.Document) error {
 				n++
-				visits = append(visits, x.alphaRead(res, d))
+				if n%2 == 0 {
+					visits = append(visits, x.alphaDoc(d))
+					kept = append(kept, d)
+				} else {
+					visits = append(visits, x.alphaRead(res, d))
+					kept = append(kept, nil)
+				}
 				if j > 0 && n >= j {
 					return errConsumer
 				}
 				return nil
 			})
+			x.keptIntact(res, kept, visits)
 			res["val"] = visits
 			res["qfp"] = []interface{}{fp, queryFingerprint(q)}
 			return err
